@@ -159,6 +159,26 @@ pub async fn run_case(c: Case) -> Result<CaseInfo, Failure> {
             ),
         ));
     }
+    // (a PUBREL - released by the application or written by the library for a cancelled QoS 2 send - may fall due while a
+    // streamed payload is owed and is refused then, like any other packet inside a payload; that is C08's subject:
+    // histories with both a stream and a QoS 2 send are not judged by this rule)
+    let pubrel_during_stream = !w.streams.is_empty() && w.slots.iter().any(|s| s.kind == SendKind::Qos2);
+    // the peer has acknowledged every packet it received and every receipt has been released: nothing further can
+    // free a slot, so a sender still parked now is parked for good - whatever the window looks like (a slot held by an
+    // exchange whose send future was cancelled must not be lost)
+    if let Some(i) = stuck.iter().find(|i| w.slots[**i].chunk_of.is_none()).filter(|_| !backpressure && w.unanswered.is_empty() && !header_out && !pubrel_during_stream) {
+        return Err(Failure::new(
+            "sender-stuck",
+            format!("C13/{}/sender-stuck/peer-acknowledged-everything", c.role.name()),
+            format!(
+                "at quiescence the peer has acknowledged every packet it received, yet future #{i} ({:?}) is still pending: {outstanding} of {} slots are held by exchanges nobody will complete (cancelled futures: {:?}); futures {:?}",
+                w.slots[*i].kind,
+                w.limit,
+                w.slots.iter().enumerate().filter(|(_, s)| s.dropped).map(|(k, s)| (k, s.kind)).collect::<Vec<_>>(),
+                w.results_summary()
+            ),
+        ));
+    }
     for (i, s) in w.slots.iter().enumerate() {
         // payload chunk futures fail legitimately (stream future cancelled, chunk after the end): not the subject here
         if s.dropped || s.chunk_of.is_some() {
